@@ -132,6 +132,7 @@ func scC06(r *Run) {
 	content := false
 	var cur *llState
 	var idxProbe *httpResp
+	partMSN := map[int]int{}
 	probe := func() *llState {
 		if !content {
 			if idxProbe == nil {
@@ -175,6 +176,15 @@ func scC06(r *Run) {
 			return nil
 		}
 		cur = llStateOf(pl, p.body, w.progress())
+		// remember which segment every part belongs to
+		for i, sg := range pl.Segments {
+			for _, pp := range sg.Parts {
+				partMSN[uriNumber(pp.URI)] = pl.MediaSequence + i
+			}
+		}
+		for _, pp := range pl.TrailingParts {
+			partMSN[uriNumber(pp.URI)] = pl.MediaSequence + len(pl.Segments)
+		}
 		return cur
 	}
 
@@ -321,13 +331,19 @@ func scC06(r *Run) {
 		r.Tracef("  done %s -> %d (%d bytes)", q.desc, status, len(resp.body))
 		if q.hint {
 			if status != 200 {
-				if st != nil && st.ms > q.inv.open+1 {
+				expired := st != nil && st.ms > q.inv.open+1
+				if m, ok := partMSN[q.hintNum]; ok && st != nil {
+					expired = m < st.ms
+				}
+				if expired {
 					// the request was held up (parked before the delegate) until the segment holding the part
 					// had left the window: an expired URI may fail, it must only not return foreign bytes
 					r.Probe("preload-hint-expired-before-served")
 					return
 				}
-				r.Fail("preload-hint", "status", "preload hint request for part %d returned %d", q.hintNum, status)
+				again := w.get(q.path)
+				r.Fail("preload-hint", "status", "preload hint request for part %d returned %d (a fresh request for the same URI now returns %d with %d bytes; window %d..%d; dir=%v)", q.hintNum, status,
+					again.effStatus(), len(again.body), st.ms, st.open-1, w.dirEntries())
 				return
 			}
 			if st == nil {
